@@ -7,6 +7,7 @@ import (
 	"go/token"
 	"go/types"
 	"os"
+	"os/exec"
 	"path/filepath"
 	"sort"
 	"strconv"
@@ -25,7 +26,8 @@ func init() {
 		Funcs: []string{
 			// derived keys: each Go derivation is proved equal to the function the kernel side computes
 			"ebpf.MACToUint64", "ebpf.IPToUint32", "ebpf.MakeCircuitIDKey",
-			"antispoof.macToUint64", "antispoof.Manager.AddBinding", "antispoof.Manager.AddAllowedRange",
+			"ebpf.Loader.AddVLANSubscriber", "ebpf.Loader.RemoveVLANSubscriber", "ebpf.Loader.GetVLANSubscriber",
+			"antispoof.macToUint64", "antispoof.Manager.AddBinding", "antispoof.Manager.AddBindingV6", "antispoof.Manager.RemoveBinding", "antispoof.Manager.AddAllowedRange",
 			"qos.ipToKey", "nat.ipToKey",
 		},
 		Trusted: []string{
@@ -43,7 +45,7 @@ func init() {
 			"fields are paired by name after removing underscores and case; padding fields (blank, pad, reserved) must cover exactly the C padding",
 		},
 		Explanation: "Layout contracts: for every map operation found in the typed Go AST the check pairs the Go key/value type with the C declaration of the map of that name (DWARF of bpf/*.c compiled on every run) and generates one obligation per fact: total size, and for every field the offset, the width and (arrays) the element count; every C field must have a Go counterpart and vice versa. The facts are ground integer equalities, discharged by z3. Derived keys: the Go derivations carry postconditions stating the word/bytes the kernel program computes from the frame (MAC most-significant byte first; IPv4 words with the address bytes in network order in memory; circuit-id key = first 32 bytes zero padded) and are verified like every other contract. Findings are replayed against real kernel maps created with the C-declared sizes.",
-		Extra: c06Layouts,
+		Extra:       c06Layouts,
 	})
 }
 
@@ -381,9 +383,35 @@ func c06Layouts(r *propRun) {
 		}
 	}
 	sort.Slice(facts, func(i, j int) bool { return facts[i].id < facts[j].id })
-	for _, f := range facts {
+	// all facts in ONE z3 run (push / check-sat / pop per fact): the facts are ground, a process
+	// per fact only costs start-up time
+	batch := map[int]string{}
+	{
+		var b strings.Builder
+		b.WriteString("(set-logic QF_LIA)\n")
+		for _, f := range facts {
+			fmt.Fprintf(&b, "(push 1)\n(assert (not (= %d %d)))\n(check-sat)\n(pop 1)\n", f.lhs, f.rhs)
+		}
+		tmp := filepath.Join(os.TempDir(), fmt.Sprintf("bngvc-layout-%d.smt2", os.Getpid()))
+		if os.WriteFile(tmp, []byte(b.String()), 0o644) == nil {
+			out, err := exec.Command("z3", tmp).Output()
+			os.Remove(tmp)
+			lines := strings.Split(strings.TrimSpace(string(out)), "\n")
+			if err == nil && len(lines) == len(facts) {
+				for i, ln := range lines {
+					batch[i] = strings.TrimSpace(ln)
+				}
+			}
+		}
+	}
+	for fi, f := range facts {
 		q := fmt.Sprintf("(set-logic QF_LIA)\n; %s\n(assert (not (= %d %d)))\n(check-sat)\n", f.desc, f.lhs, f.rhs)
-		res := solver.Check(q)
+		var res smt.Result
+		if st, ok := batch[fi]; ok && (st == "unsat" || st == "sat") {
+			res = smt.Result{Status: st, Solver: "z3"}
+		} else {
+			res = solver.Check(q)
+		}
 		r.solverTime += res.TimeS
 		rec := oblRecord{ID: f.id, Kind: "layout", Func: "layout", Pos: rel(f.pos), Status: res.Status, Solver: res.Solver, TimeS: res.TimeS}
 		if res.Status == "unsat" {
